@@ -19,10 +19,12 @@ Rec == LET who == Who IN
                 ts |-> ts', cpc |-> cpc']]
 SimInit == MCInit2 /\ hist = <<>>
 SimInit3 == MCInit3 /\ hist = <<>>
+SimInitCap == MCInitCap /\ hist = <<>>
 SimNext == (Next /\ hist' = Append(hist, Rec)) \/ (~ENABLED Next /\ UNCHANGED <<vars, hist>>)
 SimSpec == SimInit /\ [][SimNext]_<<vars, hist>>
 SimSpec3 == SimInit3 /\ [][SimNext]_<<vars, hist>>
+SimSpecCap == SimInitCap /\ [][SimNext]_<<vars, hist>>
 Dump == TLCGet("level") < Depth
-        \/ PrintT(ToJson([cfg |-> [maxT |-> maxT, minT |-> minT, nc |-> NC, nt |-> Cardinality(Tasks), gated |-> SeqOf(gated)],
+        \/ PrintT(ToJson([cfg |-> [maxT |-> maxT, minT |-> minT, nc |-> NC, nt |-> Cardinality(Tasks), gated |-> SeqOf(gated), qcap |-> qcap],
                           steps |-> hist]))
 ====
